@@ -378,6 +378,51 @@ def ob_cluster_layout(type, n, after=None):
     return verify(body, check_side=False, timeout_ms=60000, replay=rp)
 
 
+@obligation("cell3sec/sectors_follow_the_setters", params=[{"first": f} for f in ("radius", "rotation", "pos")], timeout=300,
+            desc="class invariant of a 3-sector cell after every sequence of up to three public setter calls starting with `first` (radius =, "
+                 "rotation =, pos = with fresh symbolic values): sector k is the hexagon of radius (current radius)/sqrt 3 (binary64 "
+                 "constant) centred at cell centre + e^{j rotation} (current radius) S_k with rotation (current rotation) - 30, where S_k "
+                 "are the unit sector centres of cluster/layout_symbolic - so users placed in a sector lie inside the CURRENT cell")
+def ob_cell3sec_setters(first):
+    seqs = [(first,)] + [(first, b) for b in ("radius", "rotation", "pos")] + \
+           [(first, b, d) for b in ("radius", "rotation", "pos") for d in ("radius", "rotation", "pos") if b != d or b != first]
+
+    def one(seq):
+        def body(c, it):
+            from pyphysim.cell import cell as cm
+            c1 = it.call(cm.Cell3Sec, [0, lift(1), None, 0.0])
+            S = [_const_complex(it.getattr(it.getattr(c1, "_sec%d" % k), "pos")) for k in (1, 2, 3)]
+            rho = _const_complex(it.getattr(c1, "secradius"))
+            goals = [Goal("unit sector layout is a table of constants", all(x is not None for x in S) and rho is not None)]
+            if not goals[0].cond:
+                return goals
+            st = {"radius": c.var("r0", "real"), "rotation": c.var("t0", "real"), "pos": c.var("p0", "complex")}
+            c.assume(st["radius"] > 0)
+            o = it.call(cm.Cell3Sec, [st["pos"], st["radius"], 5, st["rotation"]])
+            for i, op in enumerate(seq):
+                v = c.var("%s%d" % (op[0], i + 1), "complex" if op == "pos" else "real")
+                if op == "radius":
+                    c.assume(v > 0)
+                it.setattr(o, op, v)
+                st[op] = v
+                th = np.pi * st["rotation"] / 180.0
+                e = sym.SComplex(lift(th).cos(), lift(th).sin())
+                conj = []
+                for k in (1, 2, 3):
+                    sec = it.getattr(o, "_sec%d" % k)
+                    spec = sym.to_complex(st["pos"]) + e * (sym.SComplex(lift(S[k - 1][0]), lift(S[k - 1][1])) * st["radius"])
+                    conj.append(cfrac_eq(it.getattr(sec, "pos"), spec).t)
+                    conj.append((lift(it.getattr(sec, "radius")) == st["radius"] * lift(rho[0])).t)
+                    conj.append(cfrac_eq(it.getattr(sec, "rotation"), st["rotation"] - 30).t)
+                conj.append(cfrac_eq(it.getattr(o, "pos"), st["pos"]).t)
+                conj.append((lift(it.getattr(o, "radius")) == st["radius"]).t)
+                goals.append(Goal("after %s: cell and sectors are where the current radius / rotation / position put them" % " > ".join(seq[:i + 1]),
+                                  sym.SBool(z3.And(conj))))
+            return goals
+        return verify(body, check_side=False, timeout_ms=60000)
+    return merge([one(sq) for sq in seqs])
+
+
 @obligation("hexagon/vertices_regular_and_rigid",
             desc="Hexagon(pos, r, rotation) with symbolic pos, r > 0 and rotation: the six vertices are EXACTLY pos + e^{j rot} r U_k where U is "
                  "what the routine gives for the unit hexagon at the origin, and U is within 1e-15 of the regular hexagon's corners "
@@ -504,6 +549,10 @@ def ob_native_users():
             yield {"seed": int(r.randint(1 << 30)), "kind": ["hex", "square", "3sec"][i % 3]}
             if i % 6 < 2:
                 yield {"seed": int(r.randint(1 << 30)), "kind": ["hex", "square"][i % 6], "demanding": True}
+            if i < 8:
+                # 3-sector cells re-sized (and turned / moved) through the setters before users are placed in the sectors
+                yield {"seed": int(r.randint(1 << 30)), "kind": "3sec", "ops": [["shrink"], ["grow"], ["shrink", 1], ["grow", "shrink"],
+                                                                              [1, "shrink"], [2, "grow"], ["shrink", 3], ["grow", 1]][i]}
 
     def hull_ok(v, p, rad):
         if len(v) == 6 or len(v) == 4:
@@ -523,9 +572,14 @@ def ob_native_users():
             ce = cm.CellSquare(pos, rad, 1, rot)
         else:
             ce = cm.Cell3Sec(pos, rad, 1, rot)
-            for _ in range(int(rr.randint(0, 3))):
-                w = rr.randint(4)
-                if w == 0:
+            forced = list(case.get("ops", []))
+            for _ in range(len(forced) if forced else int(rr.randint(0, 3))):
+                w = forced.pop(0) if forced else rr.randint(4)
+                if w == "shrink":
+                    ce.radius = float(rad * 0.3)
+                elif w == "grow":
+                    ce.radius = float(rad * 2.5)
+                elif w == 0:
                     ce.radius = float(rad * rr.uniform(0.2, 2))
                 elif w == 1:
                     ce.rotation = float(rr.uniform(-90, 90))
